@@ -298,6 +298,14 @@ def handle : List String → Option String
         emsOld := ← boolOf m "emsold", emsNew := ← boolOf m "emsnew", renegoNonEmpty := ← boolOf m "reneg",
         alpnWanted := ← boolOf m "alpnw", alpnCommon := ← boolOf m "alpnc", heartbeat := ← natOf m "hb" }
     some (outOut (resumeChecks r))
+  | "early" :: rest => do
+    let m := kv rest
+    let r := earlySkip (← natOf m "max") (← natOf m "done") (← csvNats (← look m "sizes"))
+    some ("skipped=" ++ toString r.1 ++ " failed=" ++ (if r.2 then "1" else "0"))
+  | "cache" :: rest => do
+    let m := kv rest
+    let h ← csvNats (← look m "hist")
+    some (if (Cache.afterHistory [(1, true)] 1 (h.map (· != 0))).resumes 1 then "resumes=1" else "resumes=0")
   | "decomp" :: rest => do
     let m := kv rest
     let z : ZStream := ⟨← natOf m "avail", ← boolOf m "complete", ← boolOf m "corrupt"⟩
